@@ -272,7 +272,7 @@ def c14(tier, seed):
     if nn["ok"] or "Exact" not in nn["violated"]:
         raise ToolError("vacuity guard: NewtonOneSided without the guard no longer violates Exact")
     tr = os.path.join(wd, "conebarrier.ndjson")
-    cnt = 2000 if tier == "quick" else 400000
+    cnt = 6000 if tier == "quick" else 400000
     p = run_vh(["conebarrier", "--seed", seed, "--count", cnt, "--out", tr], timeout=4 * 3600)
     meta = json.loads(p.stdout.strip().splitlines()[-1])
     v = validate_trace("ConeBarrier.tla", "ConeBarrier.cfg", tr, nshards=10, boundary=lambda e: True)
@@ -295,7 +295,7 @@ def c14(tier, seed):
             groups.setdefault(cls, []).append(e)
         for cls, evs in list(groups.items())[:15]:
             e = evs[0]
-            case = {k: e.get(k) for k in ("s", "z", "ds", "dz", "v", "vi", "p", "q") if e.get(k) is not None}
+            case = {k: e.get(k) for k in ("s", "z", "ds", "dz", "v", "vi", "p", "q", "family") if e.get(k) is not None}
             case["cone"] = e.get("cone_spec")
             case["run"] = 0
             payload = {"kind": "conebarrier-replay", "prop": "C14", "event": {k: e[k] for k in e if k not in ("s", "z", "ds", "dz")}, "count": len(evs),
@@ -304,7 +304,7 @@ def c14(tier, seed):
     # vacuity: both branches of the primal-dual scaling and all three kinds of event must have been seen
     fam = meta.get("by_family", {})
     if not (meta.get("pd_secant", 0) > 0 and meta.get("pd_fallback", 0) > 0 and fam.get("lattice_membership", 0) > 0
-            and all(fam.get(f"{c}:{k}", 0) > 0 for c in ("Exp", "Pow", "GenPow") for k in ("calculus", "membership", "central"))):
+            and all(fam.get(f"{c}:{k}", 0) > 0 for c in ("Exp", "Pow", "GenPow") for k in ("calculus", "membership", "central", "near_boundary"))):
         raise ToolError(f"C14 recorder did not exercise every family: {meta}")
     res.coverage = {"states": nw["states"], "transitions": nw["transitions"], "evaluations": v["events"], "distinct_nontrivial": v["events"],
                     "rule": "one evaluation = (a) one nonsymmetric cone (exponential; power with alpha in [0.08, 0.93]; generalised power with 2-3 exponents and 1-3 tail entries) at a generated "
@@ -317,7 +317,7 @@ def c14(tier, seed):
                     "samples": [{k: e.get(k) for k in ("ev", "cone", "pd_mode", "interior_accepted", "p", "q", "vi")} for e in sample(read_ndjson(tr), 3)], "exhaustive": False,
                     "trusted_base": ["TLC", "FloatOrd", "observer central differences, Cholesky and cone margins", "hook nonsym_cone_battery"]}
     res.assumptions = ["numerical identities are accepted up to the stated tolerances (1e-5 relative for finite-difference references, 1e-6 for conjugacy, 1e-9 for algebraic laws); "
-                       "generated interior points keep a relative distance of at least ~1e-3 from the boundary; exponents within [0.08, 0.93]"]
+                       "generated interior points keep a relative distance of at least ~1e-3 from the boundary, except the near-boundary family (s down to 1e-7, primal finite-difference reference dropped there); exponents within [0.08, 0.93]"]
     return res
 
 
